@@ -1,6 +1,7 @@
 //! pdbh: conformance harness binding the TLA+ specifications in /verif/spec to parity-db.
 mod common;
 mod pdb;
+mod record;
 
 use std::collections::HashMap;
 
@@ -34,6 +35,8 @@ fn main() {
     let args = parse_args(&argv[2..]);
     let code = match argv[1].as_str() {
         "pdb-replay" => pdb::cmd_replay(&args),
+        "pdb-record" => record::cmd_record(&args),
+        "pdb-record-mt" => record::cmd_record_mt(&args),
         other => {
             eprintln!("unknown command {other}");
             2
